@@ -122,8 +122,14 @@ def cases(seed, count, order=None, nphi=None, synth_frac=0.4):
             kw['I2'] = float(rng.uniform(0.3, 0.9) * rng.choice([-1, 1]) / max(abs(kw['rc'][0]), 1e-9))
         if k % 3 != 2 and not kw.get('p2'):
             kw['p2'] = float(-rng.uniform(0.2, 2.0) * 1e5 * kw.get('B0', 1.0) ** 2 / kw['rc'][0] ** 2)
-        if k % 4 == 1 and not kw.get('sigma0'):
+        if k % 4 == 0 and not kw.get('sigma0'):
             kw['sigma0'] = float(rng.uniform(0.1, 0.5) * rng.choice([-1, 1]))
+        if k % 4 == 1:
+            # asymmetry through B2s alone (second order and higher): symmetric axis, sigma0 = 0 - a symmetry test that looks at
+            # rs, zc and sigma0 only is wrong exactly here
+            kw.pop('rs', None); kw.pop('zc', None)
+            kw['sigma0'] = 0.0
+            kw['B2s'] = float(rng.uniform(0.15, 0.5) * rng.choice([-1, 1]))
         if k % 4 == 2:
             # the plain stratum: stellarator-symmetric vacuum field in the default units (switch-off values are inputs too:
             # p2 == 0, I2 == 0, sigma0 == 0, B0 == 1 select branches and make factors equal to one)
